@@ -84,7 +84,7 @@ fn is_utc_timestamp(timezone: Option<&str>) -> Result<bool> {
 impl Context for TimestampDeserializer<'_> {
     fn annotate(&self, annotations: &mut std::collections::BTreeMap<String, String>) {
         set_default(annotations, "field", &self.path);
-        set_default(annotations, "data_type", "Date64");
+        set_default(annotations, "data_type", "Timestamp(..)");
     }
 }
 
